@@ -1,1 +1,199 @@
-// harness stub: nothing here yet
+// Correspondence harness for daemon/src/rpki.rs (property C13).
+// Included as the body of `rpki::verif_hx` under cfg(all(test, osrg_rustybgp_verif)).
+//
+// Drives the real RpkiClient::serve_inner (one future per cache, polled by hand, so
+// "the client has consumed everything it can" is simply Poll::Pending) over
+// tokio::io::duplex with the generated TCP fragmentation and reads
+// TableManager::collect_roa after every event.
+//
+//   case  = [nclients, pre, events]
+//   pre   = [[net, maxlen, asn], ...]      VRPs of a foreign cache (identity 9) installed beforehand
+//   net   = [4|6, [octets], mask]
+//   event = [c, 0, [bytes]]   the cache of client c sends these bytes (one TCP segment)
+//         | [c, 1]            soft reset (Notify::notify_one)
+//         | [c, 2]            the cache closes the connection
+//         | [c, 3]            the client is cancelled (CancellationToken)
+//   observation per event =
+//     [[done_0, ..], [[bytes client i wrote since the last observation], ..], table, [session_id, serial, end_of_data_count, up] of client c]
+//   table = [[4|6, [octets], mask, maxlen, asn, cache], ...]  (collect_roa IPv4 then IPv6)
+use super::*;
+use std::future::Future;
+use std::net::{Ipv4Addr, Ipv6Addr};
+use std::pin::Pin;
+use tokio::io::AsyncReadExt;
+use tokio::io::AsyncWriteExt;
+
+#[allow(dead_code)]
+mod val {
+    include!(concat!(env!("VERIF_HX_DIR"), "/common/val.rs"));
+}
+use val::Val;
+
+fn hx_addr(fam: i128, bytes: &[u8]) -> IpAddr {
+    if fam == 4 {
+        let mut o = [0u8; 4];
+        o.copy_from_slice(bytes);
+        IpAddr::V4(Ipv4Addr::from(o))
+    } else {
+        let mut o = [0u8; 16];
+        o.copy_from_slice(bytes);
+        IpAddr::V6(Ipv6Addr::from(o))
+    }
+}
+
+struct Client {
+    fut: Option<Pin<Box<dyn Future<Output = Result<(), Error>>>>>,
+    server: Option<tokio::io::DuplexStream>,
+    addr: Arc<IpAddr>,
+    cancel: CancellationToken,
+    soft_reset: Arc<Notify>,
+    state: Arc<RpkiState>,
+}
+
+fn dump(tables: &TableHandle, clients: &[Client], foreign: &Arc<IpAddr>) -> Val {
+    let mut out = Vec::new();
+    for fam in [packet::Family::IPV4, packet::Family::IPV6] {
+        for (net, roa) in tables.collect_roa(fam) {
+            let (f, bytes, mask) = match &net {
+                packet::IpNet::V4(n) => (4u8, n.addr.octets().to_vec(), n.mask),
+                packet::IpNet::V6(n) => (6u8, n.addr.octets().to_vec(), n.mask),
+            };
+            let mut src = Val::I(-2);
+            if Arc::ptr_eq(&roa.source, foreign) {
+                src = Val::n(9u8);
+            }
+            for (i, c) in clients.iter().enumerate() {
+                if Arc::ptr_eq(&roa.source, &c.addr) {
+                    src = Val::us(i);
+                }
+            }
+            out.push(Val::L(vec![
+                Val::n(f),
+                Val::from_bytes(&bytes),
+                Val::n(mask),
+                Val::n(roa.max_length),
+                Val::n(roa.as_number),
+                src,
+            ]));
+        }
+    }
+    Val::L(out)
+}
+
+async fn run_async(case: &Val) -> Val {
+    let nclients = case.at(0).usize();
+    let tables: TableHandle = Arc::new(crate::table_manager::TableManager::new(1));
+    let foreign = Arc::new(IpAddr::V4(Ipv4Addr::new(192, 0, 2, 99)));
+    let mut pre = Vec::new();
+    for r in case.at(1).list() {
+        let n = r.at(0);
+        pre.push((
+            packet::IpNet::new(hx_addr(n.at(0).int(), &n.at(1).bytes()), n.at(2).u8()),
+            Arc::new(table::Roa::new(r.at(1).u8(), r.at(2).u32(), foreign.clone())),
+        ));
+    }
+    tables.rpki_insert(pre);
+
+    let mut clients: Vec<Client> = Vec::new();
+    for i in 0..nclients {
+        let (client_io, server_io) = tokio::io::duplex(1 << 22);
+        let addr = Arc::new(IpAddr::V4(Ipv4Addr::new(192, 0, 2, 1))); // same address value, distinct Arc
+        let cancel = CancellationToken::new();
+        let soft_reset = Arc::new(Notify::new());
+        let state = Arc::new(RpkiState::default());
+        let framed = Framed::new(client_io, rpki::RtrCodec::new());
+        let fut = RpkiClient::serve_inner(
+            framed,
+            addr.clone(),
+            cancel.clone(),
+            soft_reset.clone(),
+            state.clone(),
+            tables.clone(),
+        );
+        let _ = i;
+        clients.push(Client {
+            // unconstrained: the futures are polled by hand inside one block_on poll, so tokio's
+            // cooperative budget (128 operations per task poll) must not make the stream look Pending
+            fut: Some(Box::pin(tokio::task::unconstrained(fut))),
+            server: Some(server_io),
+            addr,
+            cancel,
+            soft_reset,
+            state,
+        });
+    }
+
+    let mut obs = Vec::new();
+    // the events are preceded by an implicit "start": every client runs until it blocks
+    let mut events: Vec<Val> = vec![Val::L(vec![Val::I(0), Val::I(-1)])];
+    events.extend(case.at(2).list().iter().cloned());
+    for ev in &events {
+        tokio::task::yield_now().await; // fresh cooperative budget for this event
+        let c = ev.at(0).usize();
+        match ev.at(1).int() {
+            -1 => {}
+            0 => {
+                if let Some(s) = clients[c].server.as_mut() {
+                    let _ = s.write_all(&ev.at(2).bytes()).await;
+                }
+            }
+            1 => clients[c].soft_reset.notify_one(),
+            2 => {
+                clients[c].server = None;
+            }
+            3 => clients[c].cancel.cancel(),
+            k => panic!("verif: bad event {}", k),
+        }
+        // run every client until it can make no more progress
+        for _ in 0..3 {
+            for cl in clients.iter_mut() {
+                if let Some(f) = cl.fut.as_mut() {
+                    if let std::task::Poll::Ready(_) = futures::poll!(f.as_mut()) {
+                        cl.fut = None;
+                    }
+                }
+            }
+        }
+        // what every client wrote to its cache since the last observation
+        let mut sent_all = Vec::new();
+        for cl in clients.iter_mut() {
+            let mut sent = Vec::new();
+            if let Some(s) = cl.server.as_mut() {
+                let mut buf = [0u8; 4096];
+                loop {
+                    match futures::poll!(Box::pin(s.read(&mut buf))) {
+                        std::task::Poll::Ready(Ok(n)) if n > 0 => sent.extend_from_slice(&buf[..n]),
+                        _ => break,
+                    }
+                }
+            }
+            sent_all.push(Val::from_bytes(&sent));
+        }
+        let st = &clients[c].state;
+        obs.push(Val::L(vec![
+            Val::L(clients.iter().map(|x| Val::b(x.fut.is_none())).collect()),
+            Val::L(sent_all),
+            dump(&tables, &clients, &foreign),
+            Val::L(vec![
+                Val::n(st.session_id.load(Ordering::Relaxed)),
+                Val::n(st.serial.load(Ordering::Relaxed)),
+                Val::I(st.end_of_data.load(Ordering::Relaxed) as i128),
+                Val::b(st.up.load(Ordering::Relaxed)),
+            ]),
+        ]));
+    }
+    Val::L(obs)
+}
+
+fn run_case(case: &Val) -> Val {
+    let rt = tokio::runtime::Builder::new_current_thread()
+        .enable_all()
+        .build()
+        .expect("runtime");
+    rt.block_on(run_async(case))
+}
+
+#[test]
+fn verif_rpki_cases() {
+    val::run_cases(run_case);
+}
